@@ -1,13 +1,13 @@
 ID = 'C15'
 TITLE = 'Sequence representations convert losslessly and invert one another'
 CONTRACT_MODULES = ['contracts.utils_c', 'contracts.utils_def_c']
-FUNCTIONS = ['tangermeme.utils.chunk', 'tangermeme.utils.unchunk', 'tangermeme.utils._fast_one_hot_encode', 'tangermeme.utils.one_hot_encode#mapping']
+FUNCTIONS = ['tangermeme.utils.chunk', 'tangermeme.utils.unchunk', 'tangermeme.utils._fast_one_hot_encode', 'tangermeme.utils.one_hot_encode#mapping', 'tangermeme.utils.reverse_complement#tensor']
 BOUNDED = 'bounded.C15'
 BOUNDED_BUDGET = {'quick': 60, 'thorough': 600}
 LEVEL = 'other'
 EXPLANATION = ("deductive: chunk (unfold axiom, row offsets per sequence) and unchunk (1, 2 and >= 3 chunk paths, both overlap parities, "
                "running chunk offset over 1-2 sequences): every position covered by a complete chunk is taken from the chunk that owns it - with "
-               "chunk's contract this is the round trip; the byte-table kernel _fast_one_hot_encode (whole function: raises exactly on an illegal byte, a letter sets exactly its column, an ignored byte leaves its row zero, no access outside the arrays) and the construction of the byte table in one_hot_encode (fragment: i-th alphabet byte -> i, ignored -> -1, every other byte -> -2). bounded: one_hot_encode / characters round trip on exhaustive short strings and "
+               "chunk's contract this is the round trip; the byte-table kernel _fast_one_hot_encode (whole function: raises exactly on an illegal byte, a letter sets exactly its column, an ignored byte leaves its row zero, no access outside the arrays) and the construction of the byte table in one_hot_encode (fragment: i-th alphabet byte -> i, ignored -> -1, every other byte -> -2); tensor form of reverse_complement (fragment: out[c, l] = seq[idxs[c], L-1-l], input unwritten; lemma over the contract: twice = identity when the index map is an involution). bounded: one_hot_encode / characters round trip on exhaustive short strings and "
                "alphabets, rejection of foreign characters, reverse_complement involution / string-tensor agreement, chunk sizes 1-40 x overlaps")
 ASSUMPTIONS = ["unfold / moveaxis / reshape axioms (vf/lib.py)", "lemma ediv_emod_of_decomp instances (Lean) for the merged middle chunks",
                "of one_hot_encode only the byte table and the lookup kernel are under contract (bytes in [0,128): ASCII, as the property quantifies; int8 table entries as mathematical integers); the utf8 conversion, the final transpose / dtype cast, characters and reverse_complement are bounded only"]
